@@ -166,6 +166,11 @@ class Validation(object):
         if self.obj.format().name == "property":
             return
 
+        # itersections does not include the Section the validation was started from.
+        if self.obj.format().name == "section":
+            for prop in self.obj.properties:
+                self.validate(prop)
+
         for sec in self.obj.itersections(recursive=True):
             self.validate(sec)
             for prop in sec.properties:
